@@ -7,16 +7,16 @@ def caps(n):
 OPS_FOR = {
     "C04": None,   # all
     "C05": ["push", "pop", "push_at", "pop_at", "get_set", "mem_rem", "resize", "del", "concat", "assign"],
-    "C11": ["iter"],
-    "C12": ["pop", "push_at", "pop_at", "get_set", "set_bad", "mem_rem"],
-    "C19": ["get_set", "push"],
+    "C11": ["iter", "iter_dup"],
+    "C12": ["pop", "push_at", "pop_at", "get_set", "set_bad", "mem_rem", "resize", "stack"],
+    "C19": ["get_set", "push", "stack"],
     "C09": ["hash_cmp"],
     "C10": ["hash_cmp", "assign"],
     "C06": ["del"],
 }
 
 def array_jobs(tier, prop):
-    J = _array_jobs(tier, prop)
+    J = _array_jobs(tier, prop) + _list_jobs(tier, prop) + _tuple_jobs(tier, prop)
     ops = OPS_FOR.get(prop)
     if ops is not None:
         J = [j for j in J if j.group.split(".")[1] in ops]
@@ -72,4 +72,109 @@ def _array_jobs(tier, prop):
             add("assign", n, n, m=m, covers=(m == 1))
         for m in range(0, nmax + 1):
             add("hash_cmp", n, n, m=m, covers=(m == n))
+    return J
+
+
+def _list_jobs(tier, prop):
+    nmax = 4 if tier == "thorough" else 3
+    J = []
+    L = ["src/Exception.c", "src/Iter.c", "stubs/throw.c"]
+    F = {"push": ["List_Push", "List_Alloc", "List_Link"], "pop": ["List_Pop", "List_Unlink", "List_Free"],
+         "push_at": ["List_Push_At", "List_At", "List_Link", "List_Alloc"], "pop_at": ["List_Pop_At", "List_At", "List_Unlink", "List_Free"],
+         "get_set": ["List_Get", "List_Set", "List_At"], "set_bad": ["List_Set", "List_At"], "mem_rem": ["List_Mem", "List_Rem", "List_Unlink"],
+         "resize": ["List_Resize", "List_Clear"], "del": ["List_Del", "List_Clear"], "concat": ["List_Concat", "List_Push"],
+         "assign": ["List_Assign", "List_Clear", "List_Push"],
+         "iter": ["List_Iter_Init", "List_Iter_Next", "List_Iter_Last", "List_Iter_Prev", "List_Iter_Type", "List_Len"],
+         "hash_cmp": ["List_Hash", "List_Cmp"]}
+    def add(op, n, idx=None, m=None, covers=False, extra=()):
+        defs = ["N=%d" % n]
+        name = "%s.List.%s.n%d" % (prop, op, n)
+        if idx is not None:
+            defs.append("IDX=%d" % idx); name += ".i%s" % (str(idx).replace("-", "m"))
+        if m is not None:
+            defs.append("M=%d" % m); name += ".m%d" % m
+        J.append(Job(name, "C04", "K3", "List/k3.c", "h_" + op, F[op], link=L, defines=defs, replace_calls=["exception_throw:cv_throw"],
+                     unwind=8, cbmc=["--unwindset", "cv_live_count.0:26", "--no-malloc-may-fail"] + list(extra), covers=covers,
+                     group="List.%s" % op, also=["C05", "C11", "C12", "C19", "C09", "C10", "C06"], timeout=300,
+                     bound="List: length <= %d, every index in [-len-3, len+2]" % nmax,
+                     case="len=%d%s%s" % (n, "" if idx is None else " index=%d" % idx, "" if m is None else " operand_len=%d" % m),
+                     replay="seq_list.c",
+                     assumptions=["element model (contracts/elem.h)", "calloc/free: cbmc built-in models, allocation failure not explored (--no-malloc-may-fail)",
+                                  "header_init per its K1 contract (C19.header_init.k1)"]))
+    for n in range(0, nmax + 1):
+        add("push", n, covers=True); add("pop", n, covers=True)
+        for i in range(-(n + 3), n + 3):
+            add("push_at", n, idx=i, covers=(i == 0))
+        for i in range(-(n + 2), n + 2):
+            add("pop_at", n, idx=i, covers=(i == 0))
+        for r in range(0, n + 3):
+            add("resize", n, idx=r, covers=(r == 0))
+        for m in range(0, 3):
+            add("concat", n, m=m, covers=(m == 1))
+            add("assign", n, m=m, covers=(m == 1))
+        for i in range(-(n + 1), n + 1):
+            add("get_set", n, idx=i, covers=(i == 0))
+        for i in [n, n + 1, -(n + 1), -(n + 2)]:
+            add("set_bad", n, idx=i, covers=(i == n))
+        add("mem_rem", n, covers=True)
+        add("del", n, covers=True, extra=["--memory-leak-check"])
+        add("iter", n, covers=True)
+        for m in range(0, nmax + 1):
+            add("hash_cmp", n, m=m, covers=(m == n))
+    return J
+
+
+def _tuple_jobs(tier, prop):
+    nmax = 4 if tier == "thorough" else 3
+    J = []
+    L = ["src/Exception.c", "src/Iter.c", "stubs/throw.c"]
+    F = {"push": ["Tuple_Push", "Tuple_Len"], "pop": ["Tuple_Pop"], "push_at": ["Tuple_Push_At"], "pop_at": ["Tuple_Pop_At"],
+         "get_set": ["Tuple_Get", "Tuple_Set"], "set_bad": ["Tuple_Set"], "mem_rem": ["Tuple_Mem", "Tuple_Rem", "Tuple_Pop_At"],
+         "resize": ["Tuple_Resize"], "del": ["Tuple_Del"], "concat": ["Tuple_Concat"], "assign": ["Tuple_Assign"],
+         "iter": ["Tuple_Iter_Init", "Tuple_Iter_Next", "Tuple_Iter_Last", "Tuple_Iter_Prev", "Tuple_Len"],
+         "hash_cmp": ["Tuple_Hash", "Tuple_Cmp"], "sort": ["Tuple_Sort_By", "Tuple_Sort_Part", "Tuple_Sort_Partition", "Tuple_Swap"]}
+    def add(op, n, idx=None, m=None, covers=False, heap=1, dup=0, group=None, extra=(), unwind=8):
+        defs = ["N=%d" % n]
+        name = "%s.Tuple.%s.n%d" % (prop, group or op, n)
+        if idx is not None:
+            defs.append("IDX=%d" % idx); name += ".i%s" % (str(idx).replace("-", "m"))
+        if m is not None:
+            defs.append("M=%d" % m); name += ".m%d" % m
+        if not heap:
+            defs.append("HEAP=0"); name += ".stack_" + op
+        if dup:
+            defs.append("DUP=1")
+        J.append(Job(name, "C04", "K3", "Tuple/k3.c", "h_" + op, F[op], link=L, defines=defs, replace_calls=["exception_throw:cv_throw"],
+                     unwind=unwind, cbmc=["--unwindset", "cv_live_count.0:26", "--no-malloc-may-fail"] + list(extra), covers=covers,
+                     group="Tuple.%s" % (group or op), also=["C11", "C12", "C19", "C09", "C10"], timeout=400,
+                     bound="Tuple: length <= %d, every index in [-len-2, len+1], heap and stack receivers" % nmax,
+                     case="len=%d%s%s%s%s" % (n, "" if idx is None else " index=%d" % idx, "" if m is None else " operand_len=%d" % m, "" if heap else " stack receiver", " repeated item" if dup else ""),
+                     replay="seq_tuple.c",
+                     assumptions=["element model (contracts/elem.h)", "malloc/realloc/free: cbmc built-in models, allocation failure not explored (--no-malloc-may-fail)"]))
+    for n in range(0, nmax + 1):
+        add("push", n, covers=True); add("pop", n, covers=True)
+        for i in range(-(n + 2), n + 2):
+            add("push_at", n, idx=i, covers=(i == 0)); add("pop_at", n, idx=i, covers=(i == 0))
+        for r in range(0, n + 2):
+            add("resize", n, idx=r, covers=(r == 0))
+        for m in range(0, 3):
+            add("concat", n, m=m, covers=(m == 1)); add("assign", n, m=m, covers=(m == 1))
+        for i in range(-(n + 1), n + 1):
+            add("get_set", n, idx=i, covers=(i == 0))
+        for i in [n, n + 1, -(n + 1), -(n + 2)]:
+            add("set_bad", n, idx=i, covers=(i == n))
+        add("mem_rem", n, covers=True)
+        add("del", n, covers=True, extra=["--memory-leak-check"])
+        add("iter", n, covers=True)
+        if n >= 2:
+            add("iter", n, dup=1, group="iter_dup")
+        for m in range(0, nmax + 1):
+            add("hash_cmp", n, m=m, covers=(m == n))
+        if n <= (3 if tier == "thorough" else 2):
+            add("sort", n, covers=True, extra=["--unwindset", "Tuple_Sort_Part:%d" % (n + 1)])
+        # stack receivers: every reallocating operation must raise ValueError before touching anything (C19)
+        if n >= 1:
+            for op, kw in [("push", {}), ("pop", {}), ("push_at", {"idx": 0}), ("pop_at", {"idx": 0}), ("mem_rem", {}), ("resize", {"idx": 0}),
+                           ("del", {}), ("concat", {"m": 1}), ("assign", {"m": 1})]:
+                add(op, n, heap=0, covers=True, group="stack", **kw)
     return J
